@@ -1569,7 +1569,8 @@ static void Disassemble_87C800(
 }
 
 static void SwitchTo_87C800(void) {
-    Disassemble = Disassemble_87C800;
+    Disassemble     = Disassemble_87C800;
+    DasmIntelSyntax = True;
 }
 
 void deco87c800_init(void) {
